@@ -9,7 +9,9 @@ def run(tier, seed, replay_path=None):
     if replay_path:
         return generic_replay(ck, replay_path)
     ck.engine()
+    from . import ttl_bmc
     run_store_checks(ck, ['set', 'get', 'add', 'replace', 'append', 'prepend', 'increment', 'decrement', 'delete', 'flush'], {'vis', 'deadline', 'kind'}, K=2, tier=tier)
+    ttl_bmc.run(ck, tier, {'ttl'})
     return ck.finish()
 
 
